@@ -23,6 +23,8 @@ RULE = (
     "TFDZ, insert zone, OCF, FECF) [pack with explicit and automatic frame type, len, frame-length field, TFDF alone (unpack with "
     "and without frame type, its len and re-pack), unpack with matching managed parameters, len / TFDF len / re-pack / "
     "set_frame_len_in_header of the DECODED frame, and every detectable mismatching parameter set]; a history (see below). "
+    "Largest frames: per construction rule the two largest data zones that fit a 65536-octet frame (7-octet header, data field "
+    "65529 octets with its own header) as full frame cases, and the next larger one, which the constructor must refuse. "
     "Headers: SCID and frame "
     "length full(16), VCID x MAP x src/dst full, flags full, VCF length 0..7 x walk(8n) x flags, each in K background vectors, "
     "plus the full product of the edge alphabets. A header vector is counted distinct non-trivial the first time its tuple "
@@ -66,6 +68,7 @@ NEGATIVE_IDS = True
 TFDZ_LENS = list(range(17)) + [255, 1024]
 MAXV = {"scid": 0xFFFF, "vcid": 63, "map_id": 15}
 SUFFIX = b"\xee\xee"
+TFDF_MAX = 65536 - 7  # largest transfer frame data field (its header included): 16-bit frame length, 7-octet primary header
 
 
 def _k(tier):
@@ -109,6 +112,9 @@ def shards(tier):
                 items.append({"kind": "frames", "rule": rule, "part": p, "parts": 4, "hdr": hi})
     for rule in R.VARIABLE_RULES:
         items.append({"kind": "trunc_frames", "rule": rule})
+    for rule in range(8):
+        items.append({"kind": "big_frames", "rule": rule})
+    items.append({"kind": "no_pointer"})
     if tier == "thorough":
         for rule in R.FIXED_RULES:
             for p in range(4):
@@ -530,6 +536,54 @@ TRUNC_HDRS = [dict(scid=12, src_dest=0, vcid=5, map_id=12), dict(scid=0xFFFF, sr
               dict(scid=0xA5A5, src_dest=1, vcid=0x2A, map_id=5), dict(scid=0, src_dest=0, vcid=0, map_id=0)]
 
 
+def check_no_pointer(rec, rule, n, hi):
+    """a fixed-length construction rule without its pointer: the library documents the refusal (UslpFhpVhopFieldMissing); whatever
+    it does instead, "its length equals the packed size" still binds - octets that come back must be as long as len() says"""
+    f = _f()
+    case = {"kind": "noptr", "rule": rule, "n": n, "hdr": hi}
+    rec.case(True, ops=4)
+    r = UU.frame_recipe(UU.HDRS[hi], rule, 7, None, UU.tfdz_pattern(n, rule), None, None, None)
+    try:
+        tf = UU.build_tfdf(r)
+        fr = UU.build_frame(r)
+    except Exception as e:
+        if isinstance(e, (ValueError,) + UU.uslp_errors()):
+            return rec.outcome("no-pointer:refused-at-construction")
+        raise
+    for name, call, want in (("TransferFrameDataField.pack(FIXED)", lambda: tf.pack(frame_type=f.FrameType.FIXED), lambda: tf.len()),
+                             ("TransferFrameDataField.pack()", lambda: tf.pack(), lambda: tf.len()),
+                             ("TransferFrame.pack(FIXED)", lambda: fr.pack(frame_type=f.FrameType.FIXED), lambda: fr.len()),
+                             ("TransferFrame.pack()", lambda: fr.pack(), lambda: fr.len())):
+        try:
+            out = bytes(call())
+        except Exception as e:
+            if isinstance(e, (ValueError,) + UU.uslp_errors()):
+                rec.outcome("no-pointer:pack-refused:" + type(e).__name__)
+                continue
+            raise
+        if len(out) != want():
+            rec.violation(f"C17.frame/missing-pointer/{name.split('(')[0]}/packed-size-differs-from-len", case, {"call": name, "len()": want(), "packed": out[:24]}, want())
+        else:
+            rec.outcome("no-pointer:packed-consistently")
+
+
+def check_oversize(rec, rule):
+    fixed = rule in R.FIXED_RULES
+    n = TFDF_MAX - (3 if fixed else 1) + 1
+    hdr0 = next(h for h in UU.HDRS if h["vcf_len"] == 0)
+    r = UU.frame_recipe(hdr0, rule, 5 + rule, 0x0102 if fixed else None, UU.tfdz_pattern(n, rule), None, None, None)
+    case = {"kind": "big", "rule": rule, "tfdz_len": n}
+    rec.case(True, ops=1)
+    try:
+        UU.build_tfdf(r)
+    except ValueError:
+        rec.outcome("oversize-data-zone-refused")
+    except Exception as e:
+        rec.violation(f"C17.range/TransferFrameDataField/oversize-wrong-exception/{type(e).__name__}", case, repr(e), "ValueError")
+    else:
+        rec.violation("C17.range/TransferFrameDataField/oversize-data-zone-accepted", case, n, "ValueError")
+
+
 # ---------------------------------------------------------------------- run_shard
 def run_shard(item):
     rec = Rec(PROPERTY, item)
@@ -625,6 +679,24 @@ def run_shard(item):
                 if n == 700 and rule in (1, 6):
                     rec.sample({"frame": r, "kind": fk, "octets": UU.ref_frame(r)}, limit=1)
         rec.count(f"frames_{fk}", n)
+    elif kind == "big_frames":
+        # the largest frames: the 16-bit frame-length field allows 65536 octets, i.e. with the 7-octet header a data field of
+        # 65529 octets including its own 1- or 3-octet header; the two largest data zones that fit must be built, packed and
+        # decoded like any other, the next larger one cannot be expressed and must be refused by the constructor
+        rule = item["rule"]
+        fixed = rule in R.FIXED_RULES
+        hlen = 3 if fixed else 1
+        hdr0 = next(h for h in UU.HDRS if h["vcf_len"] == 0)
+        for n in (TFDF_MAX - hlen - 1, TFDF_MAX - hlen):
+            r = UU.frame_recipe(hdr0, rule, 5 + rule, 0x0102 if fixed else None, UU.tfdz_pattern(n, rule), None, None, None)
+            check_frame(rec, r, "fixed" if fixed else "var", keep=keep)
+            rec.count("largest_frames")
+        check_oversize(rec, rule)
+    elif kind == "no_pointer":
+        for rule in R.FIXED_RULES:
+            for n in (0, 1, 5, 16):
+                for hi in range(len(UU.HDRS)):
+                    check_no_pointer(rec, rule, n, hi)
     elif kind == "trunc_frames":
         rule = item["rule"]
         n = 0
@@ -672,6 +744,10 @@ def replay(case):
         check_range(rec, case["field"], case["ctor"], int(case["v"]))
     elif k == "frame":
         check_frame(rec, case["r"], case["fk"])
+    elif k == "big":
+        check_oversize(rec, case["rule"])
+    elif k == "noptr":
+        check_no_pointer(rec, case["rule"], case["n"], case["hdr"])
     elif k == "hist":
         H.replay_hist(rec, case)
     return rec.result()
